@@ -20,7 +20,9 @@ func Chance(t *rapid.T, label string, num, den int) bool {
 }
 
 // boundary pool of the C03 quantifier.
-var boundary = []string{"0", "1", "2", "9", "10", "11", "99", "100", "999", "1000", "65535", "2147483647"}
+var boundary = []string{"0", "1", "2", "9", "10", "11", "99", "100", "999", "1000", "65535", "2147483647",
+	// neighbours of 8/15/16-bit field limits (packed keys)
+	"255", "256", "257", "32767", "32768", "65536", "65537"}
 
 // small values dominate so that components collide often.
 var small = []string{"0", "0", "1", "1", "2", "2", "3", "4", "5", "9", "10", "11", "12", "20", "99", "100"}
